@@ -24,6 +24,7 @@
 package c12
 
 import (
+	"encoding/hex"
 	"fmt"
 	"sort"
 	"strings"
@@ -32,12 +33,13 @@ import (
 
 	"github.com/pingcap/kvproto/pkg/metapb"
 	"github.com/tikv/pd/server/core"
+	"github.com/tikv/pd/server/kv"
 	"github.com/tikv/pd/server/schedule/placement"
 	"pdverif/vkit"
 	"pgregory.net/rapid"
 )
 
-func TestMain(m *testing.M)   { vkit.Main(m, "C12") }
+func TestMain(m *testing.M)   { vkit.Quiet(); vkit.Main(m, "C12") }
 func TestProp(t *testing.T)   { vkit.RunAll(t) }
 func TestReplay(t *testing.T) { vkit.RunReplay(t) }
 
@@ -113,6 +115,23 @@ type Case struct {
 	// constructed (missing entries = directly). The logical region (peers, stores,
 	// roles, leader peer id) is the same whatever the construction.
 	Build []Build `json:"build,omitempty"`
+	// the path through a real placement.RuleManager (nil = not in this case)
+	Mgr *Mgr `json:"mgr,omitempty"`
+}
+
+// Mgr: the case's rules become key-ranged rules of group "pd" in a RuleManager
+// (memory storage, store-set informer = the case's stores) next to the default
+// rule "pd/default" (voter x DefCount over the whole key space, created by
+// Initialize). Points = "" + Bounds + "" (unbounded end); rule i covers
+// [Points[Ranges[i][0]], Points[Ranges[i][1]]). DefLast: the case's rules are
+// ordered before the default rule (negative indexes) instead of after it.
+// Regions are the key ranges of the regions fitted through RuleManager.FitRegion.
+type Mgr struct {
+	Bounds   []string    `json:"bounds"`
+	Ranges   [][2]int    `json:"ranges"`
+	DefCount int         `json:"def_count"`
+	DefLast  bool        `json:"def_last,omitempty"`
+	Regions  [][2]string `json:"regions"`
 }
 
 // Build: How 0 = core.NewRegionInfo(meta, leader peer) as from a heartbeat;
@@ -280,6 +299,7 @@ func genCase(t *rapid.T) Case {
 	var c Case
 	fl := flavour{excl: rapid.SampledFrom([]int{0, 0, 1, 1, 2}).Draw(t, "exclFlavour"), mixed: chance(t, 1, 4, "mixedFlavour"), sched: chance(t, 1, 3, "schedFlavour")}
 	fl.decom = chance(t, 1, 4, "decomFlavour")
+	mgr := chance(t, 1, 4, "managerPath")
 	ns := rapid.IntRange(3, 8).Draw(t, "nstores")
 	for i := 0; i < ns; i++ {
 		c.Stores = append(c.Stores, genStore(t, uint64(i+1), fl))
@@ -432,6 +452,9 @@ func genCase(t *rapid.T) Case {
 			}
 		}
 	}
+	if mgr {
+		c.Mgr = genMgr(t, nr)
+	}
 	if fl.sched && np > 0 {
 		// stores without a peer (plus one id the cluster does not know)
 		free := []uint64{201}
@@ -459,6 +482,61 @@ func genCase(t *rapid.T) Case {
 		}
 	}
 	return c
+}
+
+func genMgr(t *rapid.T, nr int) *Mgr {
+	m := &Mgr{DefCount: rapid.SampledFrom([]int{3, 1, 2}).Draw(t, "defCount"), DefLast: chance(t, 1, 3, "defLast")}
+	nb := rapid.IntRange(1, 3).Draw(t, "nbounds")
+	pick := rapid.Permutation([]string{"b", "d", "f", "h"}).Draw(t, "bounds")[:nb]
+	sort.Strings(pick)
+	m.Bounds = pick
+	for i := 0; i < nr; i++ {
+		lo := rapid.IntRange(0, nb).Draw(t, "lo")
+		hi := lo + 1
+		if !chance(t, 2, 3, "oneSegment") {
+			hi = rapid.IntRange(lo+1, nb+1).Draw(t, "hi")
+		}
+		m.Ranges = append(m.Ranges, [2]int{lo, hi})
+	}
+	// key table: every range start key k, and two keys strictly inside the segment after it
+	table := []string{"", "3", "7"}
+	for _, b := range m.Bounds {
+		table = append(table, b, b+"3", b+"7")
+	}
+	nreg := rapid.IntRange(1, 3).Draw(t, "nregions")
+	for i := 0; i < nreg; i++ {
+		var st, en string
+		switch rapid.SampledFrom([]int{0, 1, 0, 1, 2, 3}).Draw(t, "regionKind") {
+		case 0: // between two neighbouring keys of the table: inside a segment, or exactly one
+			si := rapid.IntRange(0, len(table)-1).Draw(t, "si")
+			st = table[si]
+			if si+1 < len(table) {
+				en = table[si+1]
+			}
+			if st == table[si/3*3] && chance(t, 1, 2, "wholeSegment") {
+				en = ""
+				if si+3 < len(table) {
+					en = table[si+3]
+				}
+			}
+		case 1: // from some key over one or two boundaries
+			si := rapid.IntRange(0, len(table)-4).Draw(t, "si")
+			st = table[si]
+			ei := si/3*3 + 3*rapid.IntRange(1, 2).Draw(t, "over") + rapid.IntRange(0, 2).Draw(t, "into")
+			if ei < len(table) {
+				en = table[ei]
+			}
+		case 2: // the whole key space
+		default: // any pair
+			si := rapid.IntRange(0, len(table)-1).Draw(t, "si")
+			st = table[si]
+			if si+1 < len(table) && chance(t, 3, 4, "bounded") {
+				en = table[rapid.IntRange(si+1, len(table)-1).Draw(t, "ei")]
+			}
+		}
+		m.Regions = append(m.Regions, [2]string{st, en})
+	}
+	return m
 }
 
 func seq(n int) []int {
@@ -753,6 +831,34 @@ func (s *storeSet) GetStore(id uint64) *core.StoreInfo {
 	return nil
 }
 
+// the rest of core.StoreSetInformer (the rule manager only calls GetStores).
+func (s *storeSet) GetRegionStores(r *core.RegionInfo) []*core.StoreInfo {
+	var out []*core.StoreInfo
+	for _, p := range r.GetPeers() {
+		if st := s.GetStore(p.GetStoreId()); st != nil {
+			out = append(out, st)
+		}
+	}
+	return out
+}
+func (s *storeSet) GetFollowerStores(r *core.RegionInfo) []*core.StoreInfo {
+	var out []*core.StoreInfo
+	for _, p := range r.GetPeers() {
+		if st := s.GetStore(p.GetStoreId()); st != nil && p.GetId() != r.GetLeader().GetId() {
+			out = append(out, st)
+		}
+	}
+	return out
+}
+func (s *storeSet) GetLeaderStore(r *core.RegionInfo) *core.StoreInfo {
+	for _, p := range r.GetPeers() {
+		if p.GetId() == r.GetLeader().GetId() {
+			return s.GetStore(p.GetStoreId())
+		}
+	}
+	return nil
+}
+
 func buildStores(c *Case, order []int) *storeSet {
 	ss := &storeSet{byID: map[uint64]*core.StoreInfo{}}
 	for _, i := range order {
@@ -977,6 +1083,11 @@ func checkValid(w *world, fit *placement.RegionFit, rules []*placement.Rule, idx
 			wantSat = false
 		}
 	}
+	if len(rules) == 0 {
+		// outside the property (it speaks of 1..4 rules): pd reports a fit against an
+		// empty rule list as not satisfied whatever the peers; nothing is asserted.
+		wantSat = fit.IsSatisfied()
+	}
 	if fit.IsSatisfied() != wantSat {
 		return nil, key, fmt.Errorf("RegionFit.IsSatisfied() = %v, but the fit is %v with rule counts %v", fit.IsSatisfied(), key, counts(w.rules))
 	}
@@ -1151,6 +1262,142 @@ func recheckAll(hs []*held, after string) error {
 		if err := h.recheck(after); err != nil {
 			return err
 		}
+	}
+	return nil
+}
+
+// ---------------------------------------------------------------- rule manager path
+
+var defaultLoc = []string{"zone", "rack", "host"}
+
+// checkManager builds a real RuleManager holding the case's rules as key-ranged
+// rules plus the default rule and fits regions with generated key ranges through
+// RuleManager.FitRegion. Oracle: against the ordered rule list the manager applies
+// to the region (GetRulesForApplyRegion; empty when the region crosses a range
+// boundary => every peer an orphan) the fit satisfies the same validity predicates
+// and optimality as any other fit, and it has the same comparison key as
+// placement.FitRegion(stores, region, that list) computed by the harness.
+func checkManager(c *Case, stores *storeSet, base *core.RegionInfo, idx map[uint64]int, holds *[]*held, info *vkit.Info) error {
+	m := c.Mgr
+	points := append(append([]string{""}, m.Bounds...), "")
+	// rules the manager is documented to accept: valid content (guaranteed by the
+	// generator), some store satisfies the label constraints (adjustRule), at most
+	// one leader replica in any range (checkApplyRules; only the first leader rule is kept)
+	data := map[string]Rule{"default": {Role: "voter", Count: m.DefCount, Loc: defaultLoc}}
+	var set []*placement.Rule
+	used := map[string]bool{}
+	leaderSeen := false
+	for i, r := range c.Rules {
+		matches := false
+		for si := range c.Stores {
+			matches = matches || storeMatches(&c.Rules[i], &c.Stores[si])
+		}
+		if !matches || (r.Role == "leader" && leaderSeen) {
+			continue
+		}
+		leaderSeen = leaderSeen || r.Role == "leader"
+		lo, hi := points[m.Ranges[i][0]], ""
+		if m.Ranges[i][1] < len(points)-1 {
+			hi = points[m.Ranges[i][1]]
+		}
+		index := i + 1
+		if m.DefLast {
+			index = i - 10
+		}
+		id := fmt.Sprintf("r%d", i)
+		pr := &placement.Rule{GroupID: "pd", ID: id, Index: index,
+			StartKeyHex: hex.EncodeToString([]byte(lo)), EndKeyHex: hex.EncodeToString([]byte(hi)),
+			Role: placement.PeerRoleType(r.Role), Count: r.Count, LocationLabels: append([]string(nil), r.Loc...)}
+		for _, cs := range r.Cons {
+			pr.LabelConstraints = append(pr.LabelConstraints, placement.LabelConstraint{
+				Key: cs.Key, Op: placement.LabelConstraintOp(cs.Op), Values: append([]string(nil), cs.Values...)})
+		}
+		set = append(set, pr)
+		data[id] = r
+		used[lo], used[hi] = true, true
+	}
+	mgr := placement.NewRuleManager(core.NewStorage(kv.NewMemoryKV()), stores)
+	if err := mgr.Initialize(m.DefCount, defaultLoc); err != nil {
+		return fmt.Errorf("RuleManager.Initialize(%d, %v) failed: %v", m.DefCount, defaultLoc, err)
+	}
+	if len(set) > 0 {
+		if err := mgr.SetRules(set); err != nil {
+			// not this property's business (C13): the manager path is skipped and counted
+			info.Class("manager-rejected-the-rules")
+			return nil
+		}
+	}
+	info.Class("manager-path")
+	for ri, keys := range m.Regions {
+		st, en := keys[0], keys[1]
+		what := fmt.Sprintf("region [%q,%q) through the rule manager (range keys %v)", st, en, m.Bounds)
+		region := base.Clone(core.WithStartKey([]byte(st)), core.WithEndKey([]byte(en)))
+		// does the region cross a range boundary (a start or end key of some rule)?
+		spanning := false
+		for k := range used {
+			if k != "" && st < k && (en == "" || k < en) {
+				spanning = true
+			}
+		}
+		applied := mgr.GetRulesForApplyRegion(region)
+		if (len(applied) == 0) != spanning {
+			return fmt.Errorf("%s: the manager applies %d rules, but the region %s a rule-range boundary", what, len(applied),
+				map[bool]string{true: "crosses", false: "does not cross"}[spanning])
+		}
+		mc := *c
+		mc.Rules = nil
+		for _, pr := range applied {
+			r, ok := data[pr.ID]
+			if !ok || string(pr.Role) != r.Role || pr.Count != r.Count {
+				return fmt.Errorf("%s: the manager applies rule %s/%s (%s x%d) which is not one of the rules it was given", what, pr.GroupID, pr.ID, pr.Role, pr.Count)
+			}
+			mc.Rules = append(mc.Rules, r)
+		}
+		wm := newWorld(&mc)
+		mfit := mgr.FitRegion(stores, region)
+		if mfit == nil {
+			return fmt.Errorf("%s: RuleManager.FitRegion returned nil", what)
+		}
+		if len(mfit.RuleFits) != len(applied) {
+			return fmt.Errorf("%s: the fit has %d rule fits, the manager applies %d rules", what, len(mfit.RuleFits), len(applied))
+		}
+		_, mkey, err := checkValid(wm, mfit, applied, idx)
+		if err != nil {
+			return fmt.Errorf("%s, %d rules applied: returned fit is not valid: %v", what, len(applied), err)
+		}
+		if bk, basg, total, _ := wm.best(); cmpKey(bk, mkey) != 0 {
+			return fmt.Errorf("%s: returned fit {%v} is not the best of the %d valid assignments: %v = {%v} is better", what, mkey, total, basg, bk)
+		}
+		if err := recheckAll(*holds, "fitting "+what); err != nil {
+			return err
+		}
+		*holds = append(*holds, hold("fit of "+what, mfit, wm, applied, idx, mkey))
+		// the same rule list given to placement.FitRegion by the harness
+		hfit := placement.FitRegion(stores, region, applied)
+		_, hkey, err := checkValid(wm, hfit, applied, idx)
+		if err != nil {
+			return fmt.Errorf("%s: FitRegion with the %d rules the manager applies: returned fit is not valid: %v", what, len(applied), err)
+		}
+		if cmpKey(mkey, hkey) != 0 || len(mkey.rules) != len(hkey.rules) {
+			return fmt.Errorf("%s: RuleManager.FitRegion gives {%v}, FitRegion with the rules the manager applies gives {%v}", what, mkey, hkey)
+		}
+		if got := placement.CompareRegionFit(mfit, hfit); got != 0 {
+			return fmt.Errorf("%s: CompareRegionFit(RuleManager.FitRegion, FitRegion with the rules the manager applies) = %d although both have key {%v}", what, got, mkey)
+		}
+		if err := recheckAll(*holds, "fitting the same region with the applied rules directly"); err != nil {
+			return err
+		}
+		switch {
+		case spanning:
+			info.Class("manager:region-spans-rule-ranges")
+			info.ClassIf(len(c.Peers) > 0, "manager:spanning-region-all-peers-orphans")
+		case st == "" && en == "":
+			info.Class("manager:unbounded-region-one-range")
+		default:
+			info.Class("manager:region-inside-one-range")
+		}
+		info.ClassIf(len(applied) > 1, "manager:ranged-rules-applied")
+		_ = ri
 	}
 	return nil
 }
@@ -1334,6 +1581,13 @@ func runCase(c Case) (vkit.Info, error) {
 		info.ClassIf(withOrphans >= 2, "held-results-with-orphans>=2")
 	}
 
+	// ---- (f) the path through the rule manager
+	if c.Mgr != nil {
+		if err := checkManager(&c, stores, region, idx, &holds, &info); err != nil {
+			return info, err
+		}
+	}
+
 	// ---- classification
 	multi := false
 	for p := range w.peers {
@@ -1445,6 +1699,26 @@ func runCase(c Case) (vkit.Info, error) {
 func sane(c *Case) error {
 	if len(c.Rules) == 0 {
 		return fmt.Errorf("bad case: no rules")
+	}
+	if m := c.Mgr; m != nil {
+		if len(m.Ranges) != len(c.Rules) || m.DefCount < 1 || !sort.StringsAreSorted(m.Bounds) {
+			return fmt.Errorf("bad case: manager spec")
+		}
+		for i, b := range m.Bounds {
+			if b == "" || (i > 0 && b == m.Bounds[i-1]) {
+				return fmt.Errorf("bad case: manager range keys %v", m.Bounds)
+			}
+		}
+		for _, r := range m.Ranges {
+			if r[0] < 0 || r[1] <= r[0] || r[1] > len(m.Bounds)+1 {
+				return fmt.Errorf("bad case: manager rule range %v", r)
+			}
+		}
+		for _, r := range m.Regions {
+			if r[1] != "" && r[1] <= r[0] {
+				return fmt.Errorf("bad case: manager region keys %v", r)
+			}
+		}
 	}
 	seenP, seenS, seenStore := map[uint64]bool{}, map[uint64]bool{}, map[uint64]bool{}
 	for _, s := range c.Stores {
